@@ -14,9 +14,9 @@ def _streams(prop, quick_random, thorough_random):
         n = quick_random if tier == "quick" else thorough_random
         out = [("life" + prop, ["-tier", tier, "-n", str(n)]), ("lifesock" + prop, ["-tier", tier])]
         if prop == "14":
-            # probabilistic schedule (Bind concurrent with DoListen's start-up), run in a child process; a hit is the
-            # known finding `bind-concurrent-with-serve-start-not-refused-shutdown-does-not-end-serving`
-            # (about one trial in three hits; the quick tier runs enough trials to show the finding on every run)
+            # real-scheduler stream (Bind concurrent with DoListen's start-up), run in a child process: the Bind must be
+            # refused or come first; a Bind accepted after the serving call picked up the old listener is the defect
+            # repaired by a1069ea (before the repair about one trial in three hit it)
             out.append(("lifeprobe", ["-n", "60" if tier == "quick" else "300"]))
         return out
     return f
